@@ -180,6 +180,50 @@ theorem mkAccessory_spec (aid : Option Nat) (defs : List (SvcDef V P)) (o : Nat)
       · exact Or.inr h'
     · exact Or.inr (by omega)
 
+/-! ### dropping cached representations does not touch identities -/
+
+theorem Service.objList_modChar (sv : Service V P) (o : Nat) (f : Char V P → Char V P)
+    (hf : ∀ c, (f c).obj = c.obj) : (sv.modChar o f).objList = sv.objList := by
+  simp only [Service.objList, Service.modChar, List.map_map]
+  congr 1
+  apply List.map_congr_left
+  intro c _
+  simp only [Function.comp]
+  split
+  · exact hf c
+  · rfl
+
+theorem Accessory.objList_modChar (a : Accessory V P) (o : Nat) (f : Char V P → Char V P)
+    (hf : ∀ c, (f c).obj = c.obj) : (a.modChar o f).objList = a.objList := by
+  simp only [Accessory.objList, Accessory.modChar, List.flatMap_map]
+  congr 1
+  funext sv
+  exact Service.objList_modChar sv o f hf
+
+theorem Accessory.objList_forget (a : Accessory V P) (o : Nat) : (a.forget o).objList = a.objList :=
+  Accessory.objList_modChar a o _ (fun _ => rfl)
+
+theorem Accessory.objList_forget? (a : Accessory V P) (o : Option Nat) : (a.forget? o).objList = a.objList := by
+  cases o with
+  | none => rfl
+  | some o => exact Accessory.objList_forget a o
+
+theorem AccGood.forget {n k : Nat} {a : Accessory V P} (h : AccGood n (k, a)) (o : Nat) :
+    AccGood n (k, a.forget o) := by
+  obtain ⟨h1, h2, h3, h4⟩ := h
+  refine ⟨h1, h2, ?_, ?_⟩
+  · show (a.forget o).objList.Nodup
+    rw [Accessory.objList_forget]; exact h3
+  · intro x hx
+    change x ∈ (a.forget o).objList at hx
+    rw [Accessory.objList_forget] at hx; exact h4 x hx
+
+theorem AccGood.forget? {n k : Nat} {a : Accessory V P} (h : AccGood n (k, a)) (o : Option Nat) :
+    AccGood n (k, a.forget? o) := by
+  cases o with
+  | none => exact h
+  | some o => exact h.forget o
+
 /-! ### updating one accessory -/
 
 /-- `f` applied to the accessory under key `k` -/
@@ -271,5 +315,64 @@ theorem onAcc_assoc (s : Db V P) (n : Nat) (aid : Nat) (f : Accessory V P → Op
           subst this
           simp [updKey]
         · simp [updKey, hk]
+
+
+/-! ### the three manager operations as updates of one accessory -/
+
+def fAssign (o : Nat) (a : Accessory V P) : Option (Accessory V P × Res) :=
+  some (({ a with iidm := a.iidm.assign o } : Accessory V P).forget o, .ok none)
+def FAssign (o : Nat) (a : Accessory V P) : Accessory V P :=
+  ({ a with iidm := a.iidm.assign o } : Accessory V P).forget o
+
+def fRemoveObj (o : Nat) (a : Accessory V P) : Option (Accessory V P × Res) :=
+  (a.iidm.removeObj o).map (fun mr => (({ a with iidm := mr.1 } : Accessory V P).forget o, .ok mr.2))
+def FRemoveObj (o : Nat) (a : Accessory V P) : Accessory V P :=
+  ({ a with iidm := ((a.iidm.removeObj o).map (·.1)).getD a.iidm } : Accessory V P).forget o
+
+def fRemoveIid (i : Nat) (a : Accessory V P) : Option (Accessory V P × Res) :=
+  (a.iidm.removeIid i).map (fun mr => (({ a with iidm := mr.1 } : Accessory V P).forget? mr.2, .ok mr.2))
+def FRemoveIid (i : Nat) (a : Accessory V P) : Accessory V P :=
+  ({ a with iidm := ((a.iidm.removeIid i).map (·.1)).getD a.iidm } : Accessory V P).forget?
+    ((a.iidm.removeIid i).bind (·.2))
+
+theorem step_assign (s : Db V P) (aid o : Nat) : s.step (.assign aid o) = s.onAcc aid (fAssign o) := rfl
+theorem step_removeObj (s : Db V P) (aid o : Nat) : s.step (.removeObj aid o) = s.onAcc aid (fRemoveObj o) := rfl
+theorem step_removeIid (s : Db V P) (aid i : Nat) : s.step (.removeIid aid i) = s.onAcc aid (fRemoveIid i) := rfl
+
+theorem fAssign_eq (o : Nat) (a : Accessory V P) :
+    ∃ r, fAssign o a = some (FAssign o a, r) ∧ r ≠ .keyError := ⟨.ok none, rfl, by simp⟩
+
+theorem fRemoveObj_eq (o : Nat) (a : Accessory V P) (h : Iid.Good a.iidm) :
+    ∃ r, fRemoveObj o a = some (FRemoveObj o a, r) ∧ r ≠ .keyError := by
+  obtain ⟨m', r, e, _⟩ := Iid.removeObj_good h o
+  exact ⟨.ok r, by simp [fRemoveObj, FRemoveObj, e], by simp⟩
+
+theorem fRemoveIid_eq (i : Nat) (a : Accessory V P) (h : Iid.Good a.iidm) :
+    ∃ r, fRemoveIid i a = some (FRemoveIid i a, r) ∧ r ≠ .keyError := by
+  obtain ⟨m', r, e, _⟩ := Iid.removeIid_good h i
+  exact ⟨.ok r, by simp [fRemoveIid, FRemoveIid, e], by simp⟩
+
+theorem FAssign_good {n k : Nat} {a : Accessory V P} (o : Nat) (h : AccGood n (k, a)) :
+    AccGood n (k, FAssign o a) ∧ (FAssign o a).objList = a.objList := by
+  obtain ⟨a1, a2, a3, a4⟩ := h
+  have : AccGood n (k, ({ a with iidm := a.iidm.assign o } : Accessory V P)) :=
+    ⟨a1, Iid.good_assign a2 o, a3, a4⟩
+  exact ⟨this.forget o, Accessory.objList_forget _ o⟩
+
+theorem FRemoveObj_good {n k : Nat} {a : Accessory V P} (o : Nat) (h : AccGood n (k, a)) :
+    AccGood n (k, FRemoveObj o a) ∧ (FRemoveObj o a).objList = a.objList := by
+  obtain ⟨a1, a2, a3, a4⟩ := h
+  obtain ⟨m', r, e, g, _⟩ := Iid.removeObj_good a2 o
+  have : AccGood n (k, ({ a with iidm := ((a.iidm.removeObj o).map (·.1)).getD a.iidm } : Accessory V P)) :=
+    ⟨a1, by show Iid.Good (((a.iidm.removeObj o).map (·.1)).getD a.iidm); rw [e]; exact g, a3, a4⟩
+  exact ⟨this.forget o, Accessory.objList_forget _ o⟩
+
+theorem FRemoveIid_good {n k : Nat} {a : Accessory V P} (i : Nat) (h : AccGood n (k, a)) :
+    AccGood n (k, FRemoveIid i a) ∧ (FRemoveIid i a).objList = a.objList := by
+  obtain ⟨a1, a2, a3, a4⟩ := h
+  obtain ⟨m', r, e, g, _⟩ := Iid.removeIid_good a2 i
+  have : AccGood n (k, ({ a with iidm := ((a.iidm.removeIid i).map (·.1)).getD a.iidm } : Accessory V P)) :=
+    ⟨a1, by show Iid.Good (((a.iidm.removeIid i).map (·.1)).getD a.iidm); rw [e]; exact g, a3, a4⟩
+  exact ⟨this.forget? _, Accessory.objList_forget? _ _⟩
 
 end Hap.Db
